@@ -169,7 +169,9 @@ func (vm *VM) runPath(fn *ssa.Function, args []Value, prefix []Decision) (out pa
 			case pathAbort:
 				out = pathOutcome{"abort", e.reason}
 			default:
-				panic(r)
+				// a defect of the engine itself (e.g. an unexpected value representation): the path is
+				// inconclusive, never a verdict; the message goes to the evidence
+				out = pathOutcome{"inconclusive", fmt.Sprintf("internal engine error: %v", r)}
 			}
 		}
 		vm.Solver.PopTo(0)
